@@ -84,6 +84,7 @@ static inline void ABTD_ythread_context_init(ABTD_ythread_context *p_ctx,
     p_ctx->p_stacktop = p_stacktop;
     p_ctx->stacksize = stacksize;
     ABTD_atomic_relaxed_store_ythread_context_ptr(&p_ctx->p_link, NULL);
+    ABTI_VERIF_STACK_INIT(p_stacktop, stacksize);
 }
 
 static inline void ABTD_ythread_context_init_lazy(ABTD_ythread_context *p_ctx,
@@ -100,6 +101,7 @@ ABTD_ythread_context_lazy_set_stack(ABTD_ythread_context *p_ctx,
                                     void *p_stacktop)
 {
     p_ctx->p_stacktop = p_stacktop;
+    ABTI_VERIF_STACK_INIT(p_stacktop, p_ctx->stacksize);
 }
 
 static inline void
@@ -112,6 +114,7 @@ static inline void ABTD_ythread_context_reinit(ABTD_ythread_context *p_ctx)
 {
     ABTDI_fcontext_init(&p_ctx->ctx);
     ABTD_atomic_relaxed_store_ythread_context_ptr(&p_ctx->p_link, NULL);
+    ABTI_VERIF_STACK_INIT(p_ctx->p_stacktop, p_ctx->stacksize);
 }
 
 static inline void *
